@@ -59,12 +59,17 @@ class Runner:
         self.rels.append(dict(e="rel", kind=kind, tags=list(tags), **kw))
 
     def run(self, nproc=None, sequential=False, per_job_timeout=30.0):
-        jobs = []
+        jobs, fresh = [], []
         for c in self.cases:
             j = {"id": c["id"], "src": c["src"]}
             j.update(c["job"])
-            jobs.append(j)
+            if j.pop("fresh", False):      # this case gets a worker process of its own (nothing assembled before it in that process)
+                fresh.append(j)
+            else:
+                jobs.append(j)
         self.results = self.ctx.run_jobs(jobs, nproc=nproc, sequential=sequential, per_job_timeout=per_job_timeout)
+        for i in range(0, len(fresh), 16):      # 16 one-job processes at a time
+            self.results.update(self.ctx.run_jobs(fresh[i:i + 16], per_job_timeout=per_job_timeout, chunks=[[j] for j in fresh[i:i + 16]]))
         return self.results
 
     def end(self, cid):
